@@ -617,12 +617,7 @@ func oracles09(r *Run, t *c09Tree, flat []flat09, bo build09) {
 			if k != "ServiceAccount" || !okn || nm == "" {
 				continue
 			}
-			if hasNs && sns == "" {
-				// `namespace: ""` / `namespace: null` on a subject is not a designation Kubernetes accepts; the
-				// name-reference lookup keys candidates by the literal namespace string and finds none
-				// (observed: such a subject keeps its empty namespace while the account moves). Outside the domain.
-				continue
-			}
+			emptyNs := hasNs && sns == ""
 			// the designated account: same layer, same name, the subject names its namespace or none at all
 			var acct = -1
 			count := 0
@@ -649,6 +644,12 @@ func oracles09(r *Run, t *c09Tree, flat []flat09, bo build09) {
 				cls := "C09/subjects"
 				if nm != "default" {
 					cls = "C09/subjects/non-default-account"
+				}
+				if emptyNs && gotNs == "" {
+					// `namespace: ""` / `namespace: null` on the subject: the name-reference fixer keys its candidates
+					// by the literal namespace text and finds none; the subject keeps the empty namespace while the
+					// account moves (finding, theorem C09_subjects_empty_namespace_refuted)
+					cls = "C09/subjects/empty-namespace-subject"
 				}
 				report("subjects", cls,
 					fmt.Sprintf("%s %s subject %d (ServiceAccount %s): namespace %q, the account is in %q", fr.Res.Kind, fr.Res.Name, j, nm, gotNs, wantNs))
